@@ -593,7 +593,7 @@ impl Prop for C10 {
                 "message and lifecycle values stay within what the parsers/lifecycle detection can produce (reception <= u32::MAX s, lifecycle start <= reception)".into(),
                 "normal messages whose lifecycle id is not in the table: the statement does not define their calculated time; such streams are checked for O1 only".into(),
             ],
-            budget_s: (35, 1200),
+            budget_s: (90, 1200),
             workers: 0,
             required_landmarks: vec![
                 "o2_premise_holds",
